@@ -694,6 +694,173 @@ static void stimer_checks()
     mc::more_cases(15, 0);
 }
 
+// ================================================================ stimer (bfs over op histories, fix-point)
+// One stimer_head driven through every public entry point; reference = (planned?, start, interval):
+// check(q) is true iff planned and q - start >= interval; swift advances start by interval and changes
+// nothing else; init disarms, plan/start arm.  After EVERY operation every public observer is compared:
+// the three public fields, stimer_finish and stimer_check at several times.  The universe is finite
+// (now <= horizon, swift only while the deadline is at most 6 ahead of now), so the search reaches a fix-point.
+struct StimerModel : mc::Model
+{
+    struct SOp
+    {
+        int kind, a, b;
+    };
+    enum
+    {
+        S_INIT,
+        S_PLAN,
+        S_START,
+        S_SWIFT,
+        S_PERIODIC,
+        S_DISARM,
+        S_ADVANCE
+    };
+    static const vector<SOp> &table()
+    {
+        static vector<SOp> ops;
+        if (ops.empty())
+        {
+            for (int d : {0, 1, 2, 7})
+                ops.push_back({S_ADVANCE, d, 0});
+            ops.push_back({S_SWIFT, 0, 0});
+            ops.push_back({S_PERIODIC, 0, 0});
+            ops.push_back({S_DISARM, 0, 0});
+            for (int off : {-2, 0, 1})
+                ops.push_back({S_START, off, 0});
+            for (int k : {S_INIT, S_PLAN})
+                for (int off : {-2, 0, 1})
+                    for (int i = 1; i <= 3; i++)
+                        ops.push_back({k, off, i});
+        }
+        return ops;
+    }
+    struct stimer_head *t;
+    long now = 0, horizon;
+    bool planned = false;
+    long start = 0, interval = 1;
+    const vector<SOp> &ops;
+    StimerModel() : horizon(mc::thorough() ? 30 : 16), ops(table())
+    {
+        t = (struct stimer_head *)malloc(sizeof *t);
+        memset(t, 0x5A, sizeof *t);
+        stimer_init(t, 0, 1); // initialised, not planned
+    }
+    ~StimerModel() { free(t); }
+    int nops() override { return (int)ops.size(); }
+    string opname(int o) override
+    {
+        const SOp &p = ops[o];
+        switch (p.kind)
+        {
+        case S_INIT:
+            return mc::fmt("stimer_init(now%+d,%d)", p.a, p.b);
+        case S_PLAN:
+            return mc::fmt("stimer_plan(now%+d,%d)", p.a, p.b);
+        case S_START:
+            return mc::fmt("stimer_start(now%+d)", p.a);
+        case S_SWIFT:
+            return "stimer_swift()";
+        case S_PERIODIC:
+            return "STIMER_PERIODIC(now)";
+        case S_DISARM:
+            return "stimer_init(same start,same interval)";
+        default:
+            return mc::fmt("now+=%d", p.a);
+        }
+    }
+    bool ref_check(long q) const { return planned && q - start >= interval; }
+    bool apply(int o) override
+    {
+        SOp p = ops[o];
+        const char *nm = "";
+        mc::crash_context("C16.stimer.crash");
+        switch (p.kind)
+        {
+        case S_ADVANCE:
+            if (now + p.a > horizon)
+                return false;
+            now += p.a;
+            nm = "advance";
+            break;
+        case S_INIT:
+            stimer_init(t, now + p.a, p.b);
+            planned = false, start = now + p.a, interval = p.b;
+            nm = "init";
+            break;
+        case S_PLAN:
+            stimer_plan(t, now + p.a, p.b);
+            planned = true, start = now + p.a, interval = p.b;
+            nm = "plan";
+            break;
+        case S_START:
+            stimer_start(t, now + p.a);
+            planned = true, start = now + p.a;
+            nm = "start";
+            break;
+        case S_DISARM:
+            if (!planned)
+                return false;
+            stimer_init(t, start, interval);
+            planned = false;
+            nm = "init";
+            break;
+        case S_SWIFT:
+            if (start + interval > now + 6)
+                return false; // keeps the universe finite
+            if (!planned)
+                mc::nontrivial(); // swifting a timer that is not armed
+            stimer_swift(t);
+            start += interval;
+            nm = "swift";
+            break;
+        case S_PERIODIC:
+        {
+            if (start + interval > now + 6)
+                return false;
+            bool want = ref_check(now), fired = false;
+            STIMER_PERIODIC(t, now) { fired = true; }
+            if (fired != want)
+                mc::violation(want ? "C16.stimer.periodic.due_not_fired" : (planned ? "C16.stimer.periodic.early" : "C16.stimer.periodic.unplanned_fired"),
+                              "STIMER_PERIODIC at now=%ld fired=%d, reference planned=%d start=%ld interval=%ld", now, fired, planned, start, interval);
+            if (want)
+            {
+                start += interval;
+                if (ref_check(now))
+                    mc::nontrivial(); // still due after one firing: catch-up
+            }
+            nm = "periodic";
+            break;
+        }
+        }
+        // every public observer
+        const char *cls = planned ? "planned" : "unplanned";
+        if ((t->planed != 0) != planned)
+            mc::violation(mc::fmt("C16.stimer.%s.planned_flag", nm), "planed=%d, reference %d (now=%ld)", t->planed, planned, now);
+        if (t->start != start || t->interval != interval)
+            mc::violation(mc::fmt("C16.stimer.%s.fields", nm), "start=%ld interval=%ld, reference %ld %ld (now=%ld)", t->start, t->interval, start, interval, now);
+        if ((long)stimer_finish(t) != start + interval)
+            mc::violation(mc::fmt("C16.stimer.%s.finish", nm), "finish=%ld, reference %ld+%ld", (long)stimer_finish(t), start, interval);
+        struct stimer_head before = *t;
+        for (long q : {now, start + interval - 1, start + interval, start + interval + 7, now - 3})
+        {
+            bool c = stimer_check(t, q) != 0;
+            if (c != ref_check(q))
+                mc::violation(mc::fmt("C16.stimer.%s.check.%s", nm, cls), "check(%ld)=%d, reference planned=%d start=%ld interval=%ld (now=%ld)", q, c, planned,
+                              start, interval, now);
+        }
+        if (before.start != t->start || before.interval != t->interval || before.planed != t->planed)
+            mc::violation("C16.stimer.check.modifies_timer", "stimer_check changed the timer (now=%ld)", now);
+        mc::outcome(mc::fmt("%d/%d", (int)planned, (int)ref_check(now)));
+        return true;
+    }
+    string key() override
+    {
+        // real fields + reference
+        return mc::fmt("%ld|%d,%ld,%ld|%d,%ld,%ld", now, t->planed, t->start, t->interval, (int)planned, start, interval);
+    }
+};
+
 #ifndef C16_DEPTH_Q
 #define C16_DEPTH_Q 5
 #define C16_DEPTH_T 6
@@ -713,6 +880,7 @@ MC_INIT
     mc::add_bfs("timer_manager_3_asan", [] { return std::unique_ptr<mc::Model>(new TimerModel(3)); }, o);
 #else
     mc::add_check("stimer_due_rule", stimer_checks);
+    mc::add_bfs("stimer_histories_fixpoint", [] { return std::unique_ptr<mc::Model>(new StimerModel); });
     o.depth_quick = C16_DEPTH_Q;
     o.depth_thorough = C16_DEPTH_T;
     mc::add_bfs("timer_manager_3", [] { return std::unique_ptr<mc::Model>(new TimerModel(3)); }, o);
